@@ -59,9 +59,14 @@ Section W3C.
   Notation wcase := (w3c_cred * (identifier * subproof))%type.
   Definition need (i : Z) (b : bool) : list Z := if b then [i] else [].
 
+  (* a candidate that meets the conditions: in the strict pass it must also carry the non-revocation
+     proof the conditions call for (fix: such a credential serves a request only as a last resort) *)
+  Definition has_nrp (sp : subproof) : bool := match sp_nrp sp with Some _ => true | None => false end.
+  Definition usable (strict : bool) (b : bool) (sp : subproof) : bool := negb strict || negb b || has_nrp sp.
+
   (* check_requested_attribute: first loop (revealed), second loop (schema holds the attribute);
      the result lists the position of the serving credential if it must carry a non-revocation proof *)
-  Fixpoint find_revealed (R : request) (cx : ctx) (name : string) (q : option query) (nr : option interval) (i : Z) (cs : list wcase) : option (list Z) :=
+  Fixpoint find_revealed (strict : bool) (R : request) (cx : ctx) (name : string) (q : option query) (nr : option interval) (i : Z) (cs : list wcase) : option (list Z) :=
     match cs with
     | [] => None
     | (c, (id, sp)) :: r =>
@@ -69,45 +74,64 @@ Section W3C.
         | Some (k, v) =>
             if is_ok (verify_value k sp (encode (value_to_string v))) then
               match cred_conditions R cx c id q nr with
-              | Some b => Some (need i b)
-              | None => find_revealed R cx name q nr (i + 1) r
+              | Some b => if usable strict b sp then Some (need i b) else find_revealed strict R cx name q nr (i + 1) r
+              | None => find_revealed strict R cx name q nr (i + 1) r
               end
-            else find_revealed R cx name q nr (i + 1) r
-        | None => find_revealed R cx name q nr (i + 1) r
+            else find_revealed strict R cx name q nr (i + 1) r
+        | None => find_revealed strict R cx name q nr (i + 1) r
         end
     end.
-  Fixpoint find_unrevealed (R : request) (cx : ctx) (name : string) (q : option query) (nr : option interval) (i : Z) (cs : list wcase) : res (list Z) :=
+  (* ROk None = no credential found; RErr = a missing schema aborts the whole check *)
+  Fixpoint find_unrevealed (strict : bool) (R : request) (cx : ctx) (name : string) (q : option query) (nr : option interval) (i : Z) (cs : list wcase) : res (option (list Z)) :=
     match cs with
-    | [] => RErr
+    | [] => ROk None
     | (c, (id, sp)) :: r =>
-        sc <- of_opt (assoc (id_schema id) (cx_schemas cx)) ;;            (* a missing schema aborts the whole check *)
+        sc <- of_opt (assoc (id_schema id) (cx_schemas cx)) ;;
         if existsb (fun a => String.eqb (cv a) (cv name)) (sc_attrs sc) then
           match cred_conditions R cx c id q nr with
-          | Some b => ROk (need i b)
-          | None => find_unrevealed R cx name q nr (i + 1) r
+          | Some b => if usable strict b sp then ROk (Some (need i b)) else find_unrevealed strict R cx name q nr (i + 1) r
+          | None => find_unrevealed strict R cx name q nr (i + 1) r
           end
-        else find_unrevealed R cx name q nr (i + 1) r
+        else find_unrevealed strict R cx name q nr (i + 1) r
     end.
   Definition check_attribute (R : request) (cx : ctx) (cs : list wcase) (name : string) (q : option query) (nr : option interval) : res (list Z) :=
-    match find_revealed R cx name q nr 0 cs with
+    let strict := f_w3c_nrp_search cfg in
+    match find_revealed strict R cx name q nr 0 cs with
     | Some l => ROk l
-    | None => find_unrevealed R cx name q nr 0 cs
+    | None =>
+        u <- find_unrevealed strict R cx name q nr 0 cs ;;
+        match u with
+        | Some l => ROk l
+        | None =>
+            if strict then
+              match find_revealed false R cx name q nr 0 cs with
+              | Some l => ROk l
+              | None => u2 <- find_unrevealed false R cx name q nr 0 cs ;; of_opt u2
+              end
+            else RErr
+        end
     end.
 
-  Fixpoint check_predicate (R : request) (cx : ctx) (pi : pred_info) (i : Z) (cs : list wcase) : res (list Z) :=
+  Fixpoint find_predicate (strict : bool) (R : request) (cx : ctx) (pi : pred_info) (i : Z) (cs : list wcase) : option (list Z) :=
     match cs with
-    | [] => RErr
+    | [] => None
     | (c, (id, sp)) :: r =>
         match get_predicate c (pi_name pi) with
         | Some k =>
             if existsb (fun p => pred_eqb p ((if f_w3c_pred_cv cfg then cv k else k), pi_type pi, pi_value pi)) (sp_preds sp) then
               match cred_conditions R cx c id (pi_restr pi) (pi_nr pi) with
-              | Some b => ROk (need i b)
-              | None => check_predicate R cx pi (i + 1) r
+              | Some b => if usable strict b sp then Some (need i b) else find_predicate strict R cx pi (i + 1) r
+              | None => find_predicate strict R cx pi (i + 1) r
               end
-            else check_predicate R cx pi (i + 1) r
-        | None => check_predicate R cx pi (i + 1) r
+            else find_predicate strict R cx pi (i + 1) r
+        | None => find_predicate strict R cx pi (i + 1) r
         end
+    end.
+  Definition check_predicate (R : request) (cx : ctx) (pi : pred_info) (cs : list wcase) : res (list Z) :=
+    let strict := f_w3c_nrp_search cfg in
+    match find_predicate strict R cx pi 0 cs with
+    | Some l => ROk l
+    | None => if strict then of_opt (find_predicate false R cx pi 0 cs) else RErr
     end.
 
   (* verify_credential_subject (fix of C03): every String/Number subject entry is the value the
@@ -127,7 +151,7 @@ Section W3C.
                 | None => ROk [] end ;;
           ROk (l1 ++ l2))
           (rq_attrs R) ;;
-    np <- mapR (fun '(_, pi) => check_predicate R cx pi 0 cs) (rq_preds R) ;;
+    np <- mapR (fun '(_, pi) => check_predicate R cx pi cs) (rq_preds R) ;;
     _ <- iter (fun '(c, (id, sp)) =>
           cd <- of_opt (assoc (id_creddef id) (cx_creddefs cx)) ;;
           _ <- guard (String.eqb (cd_issuer cd) (wc_issuer c)) ;;
